@@ -4,7 +4,7 @@
 # it with -R), runs the given property checks against the copy and removes the copy.
 # Evidence of these runs goes to a scratch dir too (never /verif/evidence).
 set -u
-props="$1"; patch="$2"; rev="${3:-}"
+props="$1"; patch="$(readlink -f "$2")"; rev="${3:-}"
 export GOFLAGS=-mod=mod GOPROXY=off GOSUMDB=off GOTOOLCHAIN=local; unset GOWORK
 d=$(mktemp -d /tmp/mbtry.XXXXXX)
 trap 'rm -rf "$d"' EXIT
